@@ -51,7 +51,7 @@ def gen_seq(rng, allow_bad):
         r = rng.random()
         live = [i for i, h in enumerate(hs) if not h["released"]]
         if r < 0.3 or not hs:
-            k = rng.choice([1, 1, 2, 3, 4])
+            k = rng.choice([1, 1, 2, 3, 4, 5])
             mops.append("N:%d" % k)
             lines.append("new %d %d" % (k, rng.randint(0, 9)))
             hs.append({"kind": k, "owned": True, "released": False})
@@ -65,6 +65,7 @@ def gen_seq(rng, allow_bad):
             mops.append("M:%d" % h)
             lines.append("method %d" % h)
         elif r < 0.7 and live:
+            # (the destructor wrapper on a pool object, kind 5, is a caller error like on a borrowed one)
             cand = [i for i in live if hs[i]["kind"] in (1, 2) and (hs[i]["owned"] or allow_bad)]
             if not cand:
                 continue
@@ -98,6 +99,9 @@ def run_driver(exe, lines):
                        env=dict(os.environ, ASAN_OPTIONS="detect_leaks=0:abort_on_error=0:halt_on_error=1"))
     done = len([l for l in p.stdout.splitlines() if l.startswith("op ") and " ok " in l])
     final = [l for l in p.stdout.splitlines() if l.startswith("final ")]
+    pool = [l for l in p.stdout.splitlines() if l.startswith("pool ")]
+    if final and pool:
+        final = [final[0] + " " + pool[0]]
     err = ""
     for l in p.stderr.splitlines():
         if "ERROR: AddressSanitizer:" in l:
@@ -117,6 +121,8 @@ def asan_class(err):
         return "bad-free"
     if "SEGV" in err:
         return "null"
+    if err == "exit -6":
+        return "freed-memory"        # the subject library's own check (release of a pool slot that is not in use, use of a released object)
     return "other:" + err
 
 
@@ -190,7 +196,7 @@ def run(ctx):
         agree = True
         if mclass == "Done":
             want = "final obj_live=%s other_live=%s ints_live=%s" % (mlive["live1"], mlive["live2"], mlive["live3"])
-            agree = iclass == "Done" and final.startswith(want) and done == len(lines)
+            agree = iclass == "Done" and final.startswith(want) and final.endswith("in_use=%s" % mlive["live5"]) and done == len(lines)
         else:
             # a second delete of a std::string runs libstdc++'s (uninstrumented) destructor on freed memory: ASan then sees a wild
             # access instead of a double free; the failing operation must still be the same one
@@ -212,7 +218,11 @@ def run(ctx):
                 ctx.violation("failing-input", {"what": "memory error in generated code without any handle copy", "input": {"ops": lines, "asan": err}})
             elif admissible:
                 ctx.violation("failing-input", {"what": "memory error in generated code on an admissible call sequence", "input": {"ops": lines, "asan": err}})
-        elif mclass == "Done" and not final.startswith("final obj_live=%s other_live=%s ints_live=%s" % (mlive["live1"], mlive["live2"], mlive["live3"])):
+            elif not has_copy and mclass == "Done":
+                ctx.violation("failing-input", {"what": "generated code fails on a call sequence the ownership protocol admits",
+                                                "input": {"ops": lines, "asan_or_exit": err}})
+        elif mclass == "Done" and not (final.startswith("final obj_live=%s other_live=%s ints_live=%s" % (mlive["live1"], mlive["live2"], mlive["live3"]))
+                                       and final.endswith("in_use=%s" % mlive["live5"])):
             ctx.violation("failing-input", {"what": "the library's live-object counters differ from the reference model (leak or early release)",
                                             "input": {"ops": lines, "driver": final, "model": m}})
     ctx.sample({"ops": seqs[5][1], "model": mres[5], "driver": list(dres[5])})
